@@ -19,8 +19,8 @@ from harness.impl import fordrun as F
 
 IMPORTS = ("From Ford Require Import Base.Str Base.Path Out.Names Out.External Out.ExternalSpec Corr.C16.\n"
            "Definition rq (i : nat) (d n : str) : req := {| r_id := i; r_dir := d; r_name := n |}.")
-THEOREMS = ["C16_roundtrip", "C16_roundtrip_paths", "C16_roundtrip_paths_use", "C16_import_export", "C16_target_unique", "C16_exported_target_written",
-            "C16_pub_table", "C16_undisplayed_not_exported", "C16_export_exact_partial", "C16_export_exact_refuted_private_listed",
+THEOREMS = ["C16_roundtrip", "C16_roundtrip_paths", "C16_roundtrip_paths_use", "C16_roundtrip_reexport", "C16_import_export", "C16_target_unique", "C16_exported_target_written",
+            "C16_reexported_target_written", "C16_pub_table", "C16_undisplayed_not_exported", "C16_export_exact_partial", "C16_export_exact_refuted_private_listed",
             "C16_export_exact_refuted_public_unlisted", "C16_local_first", "C16_local_first_find",
             "C16_load_errors_contained", "C16_load_all_or_nothing",
             "C16_tables_fingerprint"]
@@ -49,6 +49,16 @@ class BuiltA:
         # the order of project.modules (file-set iteration order) is an input of the model
         self.A["modules"].sort(key=lambda m: order.index(m["name"]) if m["name"] in order else 99)
         if self.modules_json is not None:
+            # ... and so is the order in which the re-exported names were added to a module's tables
+            for m in self.A["modules"]:
+                jm = next((j for j in self.modules_json["modules"] if j["name"] == m["name"]), None)
+                if jm is None:
+                    continue
+                keys = [k for w in ("pub_procs", "pub_absints", "pub_types", "pub_vars") for k in jm.get(w, {})]
+                pos = {k: i for i, k in enumerate(keys)}
+                m["kids"] = ([e for e in m["kids"] if e["kind"] != "alias"]
+                             + sorted((e for e in m["kids"] if e["kind"] == "alias"),
+                                      key=lambda e: pos.get(e["name"].lower(), 10 ** 6)))
             self.stripped = self.root / "stripped"
             self.stripped.mkdir()
             (self.stripped / "modules.json").write_text(json.dumps(I.strip_json(self.modules_json)))
@@ -802,7 +812,7 @@ def finish(chk):
         assumptions=["7-bit names; JSON objects with distinct keys, JSON numbers are naturals",
                      "A consists of modules with functions, subroutines, generic interfaces (module procedure lists), "
                      "abstract interfaces, derived types (components, bound procedures), variables, local variables / "
-                     "internal procedures / local types of procedures; no USE association between A's modules",
+                     "internal procedures / local types of procedures; re-exports between A's modules only as `use m, only: [local =>] name` (facade modules)",
                      "project-wide display only, hide_undoc off; pass-through attributes (vartype, deferred, generic, "
                      "attribs) are stripped before the export comparison",
                      "str(Path(base)/rel) modelled for a normalised absolute base; urljoin modelled for references "
